@@ -16,6 +16,7 @@ mod report;
 mod seq;
 mod shim;
 mod util;
+mod waldmg;
 
 use report::WorkerResult;
 
@@ -103,6 +104,7 @@ fn main() {
                 "crash" => crash::run(&a.tier, a.slice, a.seed),
                 "fault" => fault::run(&a.tier, a.slice, a.seed),
                 "input" => input::run(&a.tier, a.slice, a.seed, &prop),
+                "waldmg" => waldmg::run(&a.tier, a.slice, a.seed),
                 _ => {
                     eprintln!("unknown engine {engine}");
                     std::process::exit(2);
@@ -123,6 +125,7 @@ pub fn replay(case: &Value) -> Vec<report::Violation> {
         "crash" => crash::replay(case),
         "fault" => fault::replay(case),
         "input" => input::replay(case),
+        "waldmg" => waldmg::replay(case),
         e => {
             eprintln!("cannot replay engine {e:?}");
             std::process::exit(2);
